@@ -89,6 +89,16 @@ def _assigned_aggs(fn, adt, field):
                 src = op_place(ds[0][1]["op"])
                 continue
             break
+        # `let new = match .. { .. => Some(A{..}), .. => None }; if let Some(v) = new { p.f = v }`: one entry per Some arm
+        if src is not None and len(src["proj"]) == 2 and src["proj"][0]["k"] == "downcast" and src["proj"][0].get("variant") == "Some" and src["proj"][1]["k"] == "field":
+            ods = fn.defs().get(src["local"], [])
+            if ods and all(d[0] == "stmt" and not d[4]["proj"] and d[1]["k"] == "aggregate" and d[1]["kind"].get("variant") in ("Some", "None") for d in ods):
+                for d in ods:
+                    if d[2] not in fn.cfg() or d[1]["kind"].get("variant") != "Some":
+                        continue
+                    v, vals = _agg_fields(strip(R.operand(d[1]["ops"][0])))
+                    out.append((d[2], v, vals))
+                continue
         ds = fn.whole_defs(src["local"]) if src is not None and not src["proj"] else []
         if len(ds) > 1 and len(fn.defs().get(src["local"], [])) == len(ds) and all(d[0] == "stmt" for d in ds):
             for d in ds:
